@@ -301,15 +301,15 @@ func runScenarios(id string, seed int64, ev *Evidence, list map[string]func() st
 }
 
 var allScenarios = map[string]func() string{
-	"large-rollback/mem/flush150/index-on":      func() string { return largeRollback("mem", 150, true) },
-	"large-rollback/mem/flush150/index-off":     func() string { return largeRollback("mem", 150, false) },
-	"large-rollback/level/flush150/index-on":    func() string { return largeRollback("level", 150, true) },
-	"large-rollback/mem/flush100000/index-on":   func() string { return largeRollback("mem", 100000, true) },
-	"large-index-rebuild/mem/flush150":          func() string { return largeIndexRebuild("mem", 150) },
-	"large-index-rebuild/level/flush150":        func() string { return largeIndexRebuild("level", 150) },
-	"multi-batch-import/index-on/plain":         func() string { return multiBatchImport(true, false, false) },
-	"multi-batch-import/index-off/compressed":   func() string { return multiBatchImport(false, true, false) },
-	"multi-batch-import/one-version/index-on":   func() string { return multiBatchImport(true, false, true) },
+	"large-rollback/mem/flush150/index-on":    func() string { return largeRollback("mem", 150, true) },
+	"large-rollback/mem/flush150/index-off":   func() string { return largeRollback("mem", 150, false) },
+	"large-rollback/level/flush150/index-on":  func() string { return largeRollback("level", 150, true) },
+	"large-rollback/mem/flush100000/index-on": func() string { return largeRollback("mem", 100000, true) },
+	"large-index-rebuild/mem/flush150":        func() string { return largeIndexRebuild("mem", 150) },
+	"large-index-rebuild/level/flush150":      func() string { return largeIndexRebuild("level", 150) },
+	"multi-batch-import/index-on/plain":       func() string { return multiBatchImport(true, false, false) },
+	"multi-batch-import/index-off/compressed": func() string { return multiBatchImport(false, true, false) },
+	"multi-batch-import/one-version/index-on": func() string { return multiBatchImport(true, false, true) },
 }
 
 // ReplayScenario re-runs one scenario.
